@@ -77,6 +77,8 @@ type utCase struct {
 	N2      int    `json:"n2"`
 	Ties    bool   `json:"ties"`
 	Exact   bool   `json:"exact"`
+	EL      int    `json:"el"` // MannWhitneyExactLimit / MannWhitneyTiesExactLimit set by the caller (0: defaults)
+	TL      int    `json:"tl"`
 }
 
 func famUTest(mode string, args []string) error {
@@ -590,6 +592,11 @@ func utAuxEq(got, want float64) bool {
 }
 
 func utApprox(c *utCase) Verdict {
+	if c.EL > 0 {
+		oe, ot := stats.MannWhitneyExactLimit, stats.MannWhitneyTiesExactLimit
+		stats.MannWhitneyExactLimit, stats.MannWhitneyTiesExactLimit = c.EL, c.TL
+		defer func() { stats.MannWhitneyExactLimit, stats.MannWhitneyTiesExactLimit = oe, ot }()
+	}
 	rng := newRand(c.Salt)
 	n1, n2 := c.N1, c.N2
 	var x1, x2 []float64
